@@ -52,6 +52,7 @@ func init() {
 		"verifAllocBudget":  inAllocBudget,
 		"verifUnwind":       func(fr *frame, a []value) value { fr.i.px.unwind = int(asInt64(a[0])); return nil },
 		"verifUnwindCut":    func(fr *frame, a []value) value { fr.i.px.unwind = int(asInt64(a[0])); fr.i.px.unwindCut = true; return nil },
+		"verifTerminatesWithin": func(fr *frame, a []value) value { fr.i.px.unwind = int(asInt64(a[0])); fr.i.px.unwindFail = true; return nil },
 		"verifObserve":      inObserve,
 		"verifSymbolic":     func(fr *frame, a []value) value { return true },
 		"verifThorough":     func(fr *frame, a []value) value { return fr.i.eng.Thorough },
